@@ -58,7 +58,7 @@ def summary(rec):
     return s
 
 
-def same_state(sa, sb):
+def same_state(sa, sb, tol=1e-8):
     """(verdict, detail): joint states of two runs after the same step; Fock cutoffs may differ between runs"""
     if sa["live"] is None or sb["live"] is None:
         return None, "unreadable"
@@ -79,7 +79,7 @@ def same_state(sa, sb):
     if da != db:
         return False, f"dims {da} vs {db}"
     e = ref.maxdiff(ra, rb)
-    return e <= 1e-8, f"maxabs={e:.3g}"
+    return e <= tol, f"maxabs={e:.3g}"
 
 
 def wishes(summ):
@@ -161,7 +161,7 @@ def gen_program(rng, profile, tier, opts, contraction, nsteps, op_reuse=False):
     return decl, steps, summ
 
 
-def compare_runs(prop, A, B, steps, what, col, replay, cellfn, check_draws=True):
+def compare_runs(prop, A, B, steps, what, col, replay, cellfn, check_draws=True, tol=1e-8):
     """offline comparison of two logs"""
     n = min(len(A), len(B))
     for i in range(n):
@@ -183,7 +183,7 @@ def compare_runs(prop, A, B, steps, what, col, replay, cellfn, check_draws=True)
         if not a.get("valid", True) or not b.get("valid", True):
             col.add([INC(prop, "invalid-state-in-twin", cell)], replay)
             return
-        ok, det = same_state(a, b)
+        ok, det = same_state(a, b, tol)
         if ok is None:
             col.add([INC(prop, "twin-unreadable", cell)], replay)
             return
@@ -195,7 +195,7 @@ def compare_runs(prop, A, B, steps, what, col, replay, cellfn, check_draws=True)
                 if pa is None or pb is None or len(pa) != len(pb) or pa.sum() <= 0 or pb.sum() <= 0:
                     continue
                 e = float(np.max(np.abs(pa / pa.sum() - pb / pb.sum())))
-                col.add([V(prop, e <= 1e-7, "twin-distribution-differs", f"step {i}: p={np.round(pa / pa.sum(), 6).tolist()} vs {np.round(pb / pb.sum(), 6).tolist()}",
+                col.add([V(prop, e <= max(1e-7, 10 * tol), "twin-distribution-differs", f"step {i}: p={np.round(pa / pa.sum(), 6).tolist()} vs {np.round(pb / pb.sum(), 6).tolist()}",
                            ("draw",) + tuple(cell), **sig)], replay)
 
 
@@ -211,7 +211,7 @@ def c08_twin(a, col, budget):
         prog += 1
         nsteps = int(rng.integers(4, 11))
         try:
-            decl, steps, A = gen_program(rng, "levels", a.tier, {"approx_ops": False, "weights": {"config": 0}}, True, nsteps)
+            decl, steps, A = gen_program(rng, "levels", a.tier, {"approx_ops": False, "near_basis": True, "weights": {"config": 0}}, True, nsteps)
         except Exception as e:  # noqa: BLE001
             col.incon["harness-gen-error"] = col.incon.get("harness-gen-error", 0) + 1
             col.extra.setdefault("harness_errors", []).append(f"{type(e).__name__}: {e}"[:200])
@@ -226,8 +226,9 @@ def c08_twin(a, col, budget):
         B, _ = exec_twin(decl, steps, lambda i: False, lead=A)
         Cc, _ = exec_twin(decl, steps, lambda i: togg[i], lead=A)
         cellfn = lambda st, s: ("twin", st["k"], st.get("via", "-"), st.get("op", {}).get("type", "-"))  # noqa: E731
-        compare_runs("C08", A, B, steps, "on-vs-off", col, replay, cellfn)
-        compare_runs("C08", A, Cc, steps, "on-vs-toggled", col, replay, cellfn)
+        # contraction treats Tr rho^2 within 1e-6 of 1 as pure (documented tolerance): the twins may differ by that much
+        compare_runs("C08", A, B, steps, "on-vs-off", col, replay, cellfn, tol=2e-6)
+        compare_runs("C08", A, Cc, steps, "on-vs-toggled", col, replay, cellfn, tol=2e-6)
         col.programs += 1
         col.steps += 3 * len(steps)
         if len(col.samples) < 2:
